@@ -370,6 +370,34 @@ def check(prog, rep, tier):
         pr = presence(p)
         if pr is None or pr[0] == "infeasible":
             continue
+        if pr[0] == "present":
+            # the holding bin written as a search: next(<bins of the named bucket holding the fingerprint>[, None])
+            def holder(x):
+                if pr[1] is not None and x == pr[1]:
+                    return True
+                if x[0] == "call" and x[1] == ("g", "next") and len(x[2]) in (1, 2) and (len(x[2]) == 1 or x[2][1] == C(None)):
+                    return first_holder(("call", ("g", "next"), (x[2][0],), ()), p)
+                return False
+
+            def count_of(x):
+                return (x[0] == "f" and x[2] == "count" and holder(x[1])) or (x[0] == "sub" and x[2] == C(1) and x[1][0] == "f" and x[1][2] == BINF and holder(x[1][1]))
+            v_ = rv
+            if v_[0] == "phi" and v_[1][0] == "cmp" and v_[1][1] in ("is", "isnot") and v_[1][3] == C(None) and holder(v_[1][2]):
+                v_ = v_[3] if v_[1][1] == "is" else v_[2]  # (on this path the search finds the bin: it is not None)
+            if count_of(v_):
+                nck += 1
+                continue
+        if pr[0] == "present" and rv[0] == "call" and rv[1] == ("g", "next") and len(rv[2]) == 1 and rv[2][0][0] == "comp":
+            rv = ("call", ("g", "next"), (rv[2][0], C(0)), ())  # no default: the named bucket holds the fingerprint, the search cannot run dry
+        if pr[0] == "present" and rv[0] == "call" and rv[1] == ("g", "next") and len(rv[2]) == 2 and rv[2][1] == C(0) and rv[2][0][0] == "comp":
+            # next((b.count for b in <named bucket> if fingerprint in b), 0): the count of the first (the only) holding bin
+            g_ = rv[2][0]
+            if len(g_[3]) == 1 and len(g_[3][0][3]) == 1:
+                it_ = ("it", g_[3][0][1], g_[3][0][2])
+                holder = ("call", ("g", "next"), (("comp", "gen", it_, (("gen", g_[3][0][1], g_[3][0][2], g_[3][0][3]),)),), ())
+                if first_holder(holder, p) and g_[2] in (("f", it_, "count", 0), ("sub", ("f", it_, BINF, 0), C(1), 0)):
+                    nck += 1
+                    continue
         if pr[0] == "absent":
             nck += 1
             if rv != C(0):
